@@ -215,8 +215,12 @@ def geo_worlds(tier: str, seed: int, *, convs=W.ALL_CONVS, big: bool = True) -> 
             wd, h = (rng.randint(3, 6), rng.randint(3, 5)) if big else (rng.randint(2, 3), rng.randint(2, 3))
             m = W.random_mesh(rng, wd, h, shape=rng.choice(["rect", "skew", "skew2"]))
             out.append(mesh_world(m, enc=rng.choice(encs), edges=rng.random() < .5, centres=rng.random() < .3))
+    for w in out:
+        # connectivity with an integer fill value next to the index range only exists undecoded, i.e. as built in memory
+        if w["conv"] == "ugrid" and (w.get("enc") or {}).get("fillvalue") is not None:
+            w["pin_via"] = "memory"
     for k, w in enumerate(out):
-        if w["conv"] == "ugrid" and k % 2 == 0:
+        if w["conv"] == "ugrid" and k % 2 == 0 and not w.get("pin_via"):
             w["first_var"] = "eta"      # a variable with the (size 2) time dimension declared before the mesh variables
     for k, w in enumerate(out):
         if k % 4 == 3:
